@@ -38,7 +38,8 @@ Definition pick (i bs n : nat) (r : nat) (k : Z) (M : fm) : R :=
   if ((Z.of_nat i <=? c)%Z && (c <? Z.of_nat (Nat.min (i + bs) n))%Z)%bool then M r (Z.to_nat c) else r0.
 
 (* per-block condition under which numpy refuses to broadcast *)
-Definition chunk_bad (n bs i : nat) (k : Z) : bool :=
+Definition chunk_bad (fx : bool) (n bs i : nat) (k : Z) : bool :=
+  if fx then false else
   if (k =? 0)%Z then false
   else if (k <? 0)%Z then
     let w := (Nat.min (i + bs + Z.to_nat (- k)) n - i)%nat in
@@ -47,17 +48,17 @@ Definition chunk_bad (n bs i : nat) (k : Z) : bool :=
     let w := (Nat.min (i + bs) n - (i - Z.to_nat k))%nat in
     negb (Nat.eqb (Nat.min bs w) bs) && negb (Nat.eqb (Nat.min bs w) 1).
 
-Lemma contrib_spec n bs i k M mul : col_oracle n M mul -> (1 <= bs <= n)%nat -> (i < n)%nat ->
-  match get_I_chunk_like n i bs k with
+Lemma contrib_spec_pinned n bs i k M mul : col_oracle n M mul -> (1 <= bs <= n)%nat -> (i < n)%nat ->
+  match get_I_chunk_like false n i bs k with
   | None => False
   | Some (C, Sh, a0) =>
       match bmul_sum (mul a0 C) Sh with
-      | None => chunk_bad n bs i k = true
-      | Some f => chunk_bad n bs i k = false /\ forall r, (r < n)%nat -> f r = pick i bs n r k M
+      | None => chunk_bad false n bs i k = true
+      | Some f => chunk_bad false n bs i k = false /\ forall r, (r < n)%nat -> f r = pick i bs n r k M
       end
   end.
 Proof.
-  intros Hmul Hbs Hi. unfold get_I_chunk_like, chunk_bad.
+  intros Hmul Hbs Hi. unfold get_I_chunk_like, chunk_bad. cbv iota zeta.
   destruct (k =? 0)%Z eqn:E0.
   - (* k = 0 *) apply Z.eqb_eq in E0. subst k.
     set (C := slice_cols (mkarr n n eye) i (i + bs)).
@@ -162,6 +163,100 @@ Proof.
         -- destruct (Nat.eqb_spec bs 1) as [Eb|Eb]; [exfalso; lia|]. reflexivity.
 Qed.
 
+(* the repaired code: the shifted chunk has the width of the chunk, no broadcasting is ever needed *)
+Lemma contrib_spec_fixed n bs i k M mul : col_oracle n M mul -> (1 <= bs <= n)%nat -> (i < n)%nat ->
+  match get_I_chunk_like true n i bs k with
+  | None => False
+  | Some (C, Sh, a0) =>
+      match bmul_sum (mul a0 C) Sh with
+      | None => False
+      | Some f => forall r, (r < n)%nat -> f r = pick i bs n r k M
+      end
+  end.
+Proof.
+  intros Hmul Hbs Hi.
+  destruct (k =? 0)%Z eqn:E0.
+  - (* k = 0: the same code as before *)
+    pose proof (contrib_spec_pinned n bs i k M mul Hmul Hbs Hi) as H. unfold get_I_chunk_like in *. rewrite E0 in *.
+    destruct (bmul_sum _ _) as [f|]; [exact (proj2 H)|]. unfold chunk_bad in H. rewrite E0 in H. discriminate.
+  - unfold get_I_chunk_like. rewrite E0. apply Z.eqb_neq in E0. destruct (k <=? 0)%Z eqn:E1.
+    + (* k < 0 *) apply Z.leb_le in E1. assert (Hk : (k < 0)%Z) by lia.
+      set (k' := Z.to_nat (- k)). assert (Hk' : (1 <= k')%nat) by (unfold k'; lia). assert (Ek : k = (- Z.of_nat k')%Z) by (unfold k'; lia).
+      set (w := (Nat.min (i + bs + k') n - i)%nat).
+      set (C := slice_cols (mkarr n n eye) i (i + bs + k')).
+      assert (HC : nc C = w) by (unfold C, slice_cols, w; cbn [nc nr dat]; rewrite (Nat.min_l i n) by lia; reflexivity).
+      assert (HD : forall r c, dat C r c = delta r (i + c)%nat) by (intros; unfold C, slice_cols; cbn [nc nr dat]; rewrite (Nat.min_l i n) by lia; reflexivity).
+      assert (Hw : (1 <= w <= bs + k')%nat) by (unfold w; lia).
+      unfold pad_left. rewrite HC. replace (w <=? bs + k')%nat with true by (symmetry; apply Nat.leb_le; lia).
+      set (P := mkarr n (bs + k') (fun i0 j => if (j <? w)%nat then dat C i0 j else r0)).
+      cbv zeta. set (Ch := slice_cols C 0 bs).
+      assert (HCh : nc Ch = Nat.min bs w) by (unfold Ch, slice_cols; cbn [nc]; rewrite HC; lia).
+      rewrite HCh. set (cw := Nat.min bs w) in *. set (Sh := slice_cols P k' (k' + cw)).
+      assert (HChD : forall r c, dat Ch r c = delta r (i + c)%nat) by (intros; unfold Ch, slice_cols; cbn [dat nc]; rewrite HC, HD; reflexivity).
+      assert (HSh : nc Sh = cw) by (unfold Sh, slice_cols, P; cbn [nc]; unfold cw; lia).
+      assert (HShD : forall r c, dat Sh r c = if (k' + c <? w)%nat then delta r (i + (k' + c))%nat else r0).
+      { intros. unfold Sh, slice_cols, P. cbn [dat nc]. rewrite (Nat.min_l k' (bs + k')) by lia. rewrite HD. reflexivity. }
+      rewrite (Nat.min_l i n) by lia.
+      destruct (Hmul i Ch eq_refl) as (N1 & N2); [rewrite HCh; unfold cw, w; lia | intros; rewrite HChD; reflexivity|].
+      unfold bmul_sum. rewrite N1, HCh, HSh, Nat.eqb_refl. intros r Hr. unfold pick.
+      destruct ((Z.of_nat i <=? Z.of_nat r + k)%Z && (Z.of_nat r + k <? Z.of_nat (Nat.min (i + bs) n))%Z) eqn:E.
+      * apply andb_prop in E as [A B']. apply Z.leb_le in A. apply Z.ltb_lt in B'.
+        rewrite (sum_single _ _ (r - i - k')%nat); [|unfold cw, w; lia|].
+        -- rewrite N2, HShD by (unfold cw, w; lia). replace (k' + (r - i - k') <? w)%nat with true by (symmetry; apply Nat.ltb_lt; unfold w; lia).
+           rewrite delta_eq by lia. replace (i + (r - i - k'))%nat with (Z.to_nat (Z.of_nat r + k)) by lia. ring.
+        -- intros c Hc Hne. rewrite HShD. destruct (k' + c <? w)%nat; [rewrite delta_ne by lia|]; ring.
+      * apply sum_all_zero. intros c Hc. rewrite HShD. destruct (k' + c <? w)%nat eqn:E2; [|ring]. apply Nat.ltb_lt in E2.
+        rewrite delta_ne; [ring|]. apply andb_false_iff in E. rewrite Z.leb_gt, Z.ltb_ge in E. unfold cw, w in *. lia.
+    + (* k > 0 *) apply Z.leb_gt in E1.
+      set (kk := Z.to_nat k). assert (Hkk : (1 <= kk)%nat) by (unfold kk; lia). assert (Ek : k = Z.of_nat kk) by (unfold kk; lia).
+      set (C := slice_cols (mkarr n n eye) (i - kk) (i + bs)).
+      set (a := (i - kk)%nat). set (b := Nat.min (i + bs) n). set (w := (b - a)%nat).
+      assert (HC : nc C = w) by (unfold C, slice_cols, w, a, b; cbn [nc nr dat]; rewrite (Nat.min_l (i - kk) n) by lia; reflexivity).
+      assert (HD : forall r c, dat C r c = delta r (a + c)%nat) by (intros; unfold C, slice_cols, a; cbn [nc nr dat]; rewrite (Nat.min_l (i - kk) n) by lia; reflexivity).
+      assert (Hw : (1 <= w <= bs + kk)%nat) by (unfold w, a, b; lia).
+      unfold pad_right. rewrite HC. replace (w <=? bs + kk)%nat with true by (symmetry; apply Nat.leb_le; lia).
+      replace (Nat.eqb w 0) with false by (symmetry; apply Nat.eqb_neq; lia). cbn [negb andb].
+      set (off := (bs + kk - w)%nat).
+      set (P := mkarr n (bs + kk) (fun i0 j => if (off <=? j)%nat then dat C i0 (j - off)%nat else r0)).
+      cbv zeta. set (Ch := last_cols C bs).
+      assert (HCh : nc Ch = Nat.min bs w) by (unfold Ch, last_cols; cbn [nc]; rewrite HC; reflexivity).
+      rewrite HCh. set (cw := Nat.min bs w) in *. set (Sh := slice_cols P (bs - cw) bs).
+      assert (HChD : forall r c, dat Ch r c = delta r (a + (w - cw) + c)%nat).
+      { intros. unfold Ch, last_cols. cbn [dat nc]. rewrite HC, HD. fold cw. f_equal. lia. }
+      assert (HSh : nc Sh = cw) by (unfold Sh, slice_cols, P; cbn [nc]; unfold cw; lia).
+      assert (HShD : forall r c, dat Sh r c = if (off <=? bs - cw + c)%nat then delta r (a + (bs - cw + c - off))%nat else r0).
+      { intros. unfold Sh, slice_cols, P. cbn [dat nc]. rewrite (Nat.min_l (bs - cw) (bs + kk)) by lia. rewrite HD. reflexivity. }
+      rewrite (Nat.min_l a n) by (unfold a; lia). rewrite ?HC. fold cw.
+      destruct (Hmul (a + (w - cw))%nat Ch eq_refl) as (N1 & N2); [rewrite HCh; unfold cw, w, a, b; lia | intros; rewrite HChD; reflexivity|].
+      unfold bmul_sum. rewrite N1, HCh, HSh, Nat.eqb_refl. intros r Hr. unfold pick. fold b.
+      destruct ((Z.of_nat i <=? Z.of_nat r + k)%Z && (Z.of_nat r + k <? Z.of_nat b)%Z) eqn:E.
+      * apply andb_prop in E as [A B']. apply Z.leb_le in A. apply Z.ltb_lt in B'.
+        assert (Hra : (a <= r)%nat) by (unfold a; lia).
+        assert (Hlo : (a + (w - cw) <= r + kk)%nat) by (unfold cw, w, a, b in *; lia).
+        rewrite (sum_single _ _ (r + kk - (a + (w - cw)))%nat); [|unfold cw, w, a, b in *; lia|].
+        -- rewrite N2, HShD by (unfold cw, w, a, b in *; lia).
+           replace (off <=? bs - cw + (r + kk - (a + (w - cw))))%nat with true by (symmetry; apply Nat.leb_le; unfold off, cw, w, a, b in *; lia).
+           rewrite delta_eq by (unfold off, cw, w, a, b in *; lia).
+           replace (a + (w - cw) + (r + kk - (a + (w - cw))))%nat with (Z.to_nat (Z.of_nat r + k)) by (unfold cw, w, a, b in *; lia). ring.
+        -- intros c Hc Hne. rewrite HShD. destruct (off <=? bs - cw + c)%nat eqn:E2; [|ring]. apply Nat.leb_le in E2.
+           rewrite delta_ne; [ring|]. unfold off, cw, w, a, b in *. lia.
+      * apply sum_all_zero. intros c Hc. rewrite HShD. destruct (off <=? bs - cw + c)%nat eqn:E2; [|ring]. apply Nat.leb_le in E2.
+        rewrite delta_ne; [ring|]. apply andb_false_iff in E. rewrite Z.leb_gt, Z.ltb_ge in E. unfold off, cw, w, a, b in *. lia.
+Qed.
+Lemma contrib_spec fx n bs i k M mul : col_oracle n M mul -> (1 <= bs <= n)%nat -> (i < n)%nat ->
+  match get_I_chunk_like fx n i bs k with
+  | None => False
+  | Some (C, Sh, a0) =>
+      match bmul_sum (mul a0 C) Sh with
+      | None => chunk_bad fx n bs i k = true
+      | Some f => chunk_bad fx n bs i k = false /\ forall r, (r < n)%nat -> f r = pick i bs n r k M
+      end
+  end.
+Proof. intros Hmul Hbs Hi. destruct fx; [|apply contrib_spec_pinned; auto].
+  pose proof (contrib_spec_fixed n bs i k M mul Hmul Hbs Hi) as H.
+  destruct (get_I_chunk_like true n i bs k) as [[[C Sh] a0]|]; [|exact H].
+  destruct (bmul_sum (mul a0 C) Sh) as [f|]; [|contradiction]. split; [reflexivity|exact H]. Qed.
+
 (* ---------- range(0, n, bs) and the sum over the blocks *)
 Lemma chunk_starts_lt fuel i0 bs n i : In i (chunk_starts fuel i0 bs n) -> (i < n)%nat.
 Proof. revert i0. induction fuel as [|f IH]; intros i0; cbn [chunk_starts]; [intros []|].
@@ -194,51 +289,51 @@ Proof. intros Hbs. revert i0 acc. induction fuel as [|f IH]; intros i0 acc Hf; [
     destruct ((Z.of_nat i0 <=? Z.of_nat r + k)%Z && (Z.of_nat r + k <? Z.of_nat n)%Z) eqn:E3; [|ring].
     apply andb_prop in E3 as [A B']. apply Z.leb_le in A. apply Z.ltb_lt in B'. lia. Qed.
 
-Definition contrib_of (n bs : nat) (mul : nat -> arr -> arr) (k : Z) (i : nat) : option (nat -> R) :=
-  match get_I_chunk_like n i bs k with None => None | Some (C, Sh, a0) => bmul_sum (mul a0 C) Sh end.
-Lemma contrib_of_spec n bs i k M mul : col_oracle n M mul -> (1 <= bs <= n)%nat -> (i < n)%nat ->
-  match contrib_of n bs mul k i with
-  | None => chunk_bad n bs i k = true
-  | Some f => chunk_bad n bs i k = false /\ forall r, (r < n)%nat -> f r = pick i bs n r k M
+Definition contrib_of (fx : bool) (n bs : nat) (mul : nat -> arr -> arr) (k : Z) (i : nat) : option (nat -> R) :=
+  match get_I_chunk_like fx n i bs k with None => None | Some (C, Sh, a0) => bmul_sum (mul a0 C) Sh end.
+Lemma contrib_of_spec fx n bs i k M mul : col_oracle n M mul -> (1 <= bs <= n)%nat -> (i < n)%nat ->
+  match contrib_of fx n bs mul k i with
+  | None => chunk_bad fx n bs i k = true
+  | Some f => chunk_bad fx n bs i k = false /\ forall r, (r < n)%nat -> f r = pick i bs n r k M
   end.
-Proof. intros Hmul Hbs Hi. pose proof (contrib_spec n bs i k M mul Hmul Hbs Hi) as Hc. unfold contrib_of.
-  destruct (get_I_chunk_like n i bs k) as [[[C Sh] a0]|]; [exact Hc|contradiction]. Qed.
-Lemma contribs_fold n bs k M mul l r acc : col_oracle n M mul -> (1 <= bs <= n)%nat -> (forall i, In i l -> (i < n)%nat) -> (r < n)%nat ->
-  existsb (fun i => chunk_bad n bs i k) l = false ->
-  forallb is_some (map (contrib_of n bs mul k) l) = true /\
-  fold_left (fun a o => match o with Some f => a + f r | None => a end) (map (contrib_of n bs mul k) l) acc
+Proof. intros Hmul Hbs Hi. pose proof (contrib_spec fx n bs i k M mul Hmul Hbs Hi) as Hc. unfold contrib_of.
+  destruct (get_I_chunk_like fx n i bs k) as [[[C Sh] a0]|]; [exact Hc|contradiction]. Qed.
+Lemma contribs_fold fx n bs k M mul l r acc : col_oracle n M mul -> (1 <= bs <= n)%nat -> (forall i, In i l -> (i < n)%nat) -> (r < n)%nat ->
+  existsb (fun i => chunk_bad fx n bs i k) l = false ->
+  forallb is_some (map (contrib_of fx n bs mul k) l) = true /\
+  fold_left (fun a o => match o with Some f => a + f r | None => a end) (map (contrib_of fx n bs mul k) l) acc
   = fold_left (fun a i => a + pick i bs n r k M) l acc.
 Proof. intros Hmul Hbs Hl Hr. revert acc. induction l as [|i l IH]; intros acc Hb; [split; reflexivity|].
   cbn [existsb] in Hb. apply orb_false_iff in Hb as [Hb1 Hb2].
-  pose proof (contrib_of_spec n bs i k M mul Hmul Hbs (Hl i (or_introl eq_refl))) as Hc.
-  cbn [map forallb fold_left]. destruct (contrib_of n bs mul k i) as [f|]; [|congruence]. destruct Hc as [_ Hf].
+  pose proof (contrib_of_spec fx n bs i k M mul Hmul Hbs (Hl i (or_introl eq_refl))) as Hc.
+  cbn [map forallb fold_left]. destruct (contrib_of fx n bs mul k i) as [f|]; [|congruence]. destruct Hc as [_ Hf].
   destruct (IH (fun j Hj => Hl j (or_intror Hj)) (acc + f r) Hb2) as [I1 I2]. cbn [is_some andb]. split; [exact I1|].
   rewrite I2, Hf by exact Hr. reflexivity. Qed.
-Lemma contribs_bad n bs k M mul l : col_oracle n M mul -> (1 <= bs <= n)%nat -> (forall i, In i l -> (i < n)%nat) ->
-  existsb (fun i => chunk_bad n bs i k) l = true -> forallb is_some (map (contrib_of n bs mul k) l) = false.
+Lemma contribs_bad fx n bs k M mul l : col_oracle n M mul -> (1 <= bs <= n)%nat -> (forall i, In i l -> (i < n)%nat) ->
+  existsb (fun i => chunk_bad fx n bs i k) l = true -> forallb is_some (map (contrib_of fx n bs mul k) l) = false.
 Proof. intros Hmul Hbs Hl. induction l as [|i l IH]; intros Hb; [discriminate|]. cbn [existsb] in Hb. cbn [map forallb].
-  pose proof (contrib_of_spec n bs i k M mul Hmul Hbs (Hl i (or_introl eq_refl))) as Hc.
-  destruct (contrib_of n bs mul k i) as [f|]; [|reflexivity]. destruct Hc as [Hc _]. rewrite Hc in Hb. cbn [orb] in Hb.
+  pose proof (contrib_of_spec fx n bs i k M mul Hmul Hbs (Hl i (or_introl eq_refl))) as Hc.
+  destruct (contrib_of fx n bs mul k i) as [f|]; [|reflexivity]. destruct Hc as [Hc _]. rewrite Hc in Hb. cbn [orb] in Hb.
   cbn [is_some andb]. apply IH; auto. intros j Hj. apply Hl. right. exact Hj. Qed.
 
 (* ===== exact_diag: the true diagonal, or an error exactly when some block cannot be broadcast ===== *)
-Theorem exact_diag_spec B n k (M : fm) mul : col_oracle n M mul -> (1 <= B)%nat -> (1 <= n)%nat ->
-  exact_diag B n mul k =
-    if existsb (fun i => chunk_bad n (Nat.min B n) i k) (chunk_starts (S n) 0 (Nat.min B n) n) then None
+Theorem exact_diag_spec fx B n k (M : fm) mul : col_oracle n M mul -> (1 <= B)%nat -> (1 <= n)%nat ->
+  exact_diag fx B n mul k =
+    if existsb (fun i => chunk_bad fx n (Nat.min B n) i k) (chunk_starts (S n) 0 (Nat.min B n) n) then None
     else Some (true_diag n n M k).
 Proof. intros Hmul HB Hn. unfold exact_diag. set (bs := Nat.min B n). assert (Hbs : (1 <= bs <= n)%nat) by (unfold bs; lia).
   set (l := chunk_starts (S n) 0 bs n). assert (Hl : forall i, In i l -> (i < n)%nat) by (intros i; apply chunk_starts_lt).
-  change (map (fun i => match get_I_chunk_like n i bs k with None => None | Some (C, Sh, a0) => bmul_sum (mul a0 C) Sh end) l)
-    with (map (contrib_of n bs mul k) l).
-  destruct (existsb (fun i => chunk_bad n bs i k) l) eqn:Eb.
-  - rewrite (contribs_bad n bs k M mul l Hmul Hbs Hl Eb). reflexivity.
-  - assert (Hsome : forallb is_some (map (contrib_of n bs mul k) l) = true).
-    { destruct (contribs_fold n bs k M mul l 0%nat r0 Hmul Hbs Hl ltac:(lia) Eb) as [H _]. exact H. }
+  change (map (fun i => match get_I_chunk_like fx n i bs k with None => None | Some (C, Sh, a0) => bmul_sum (mul a0 C) Sh end) l)
+    with (map (contrib_of fx n bs mul k) l).
+  destruct (existsb (fun i => chunk_bad fx n bs i k) l) eqn:Eb.
+  - rewrite (contribs_bad fx n bs k M mul l Hmul Hbs Hl Eb). reflexivity.
+  - assert (Hsome : forallb is_some (map (contrib_of fx n bs mul k) l) = true).
+    { destruct (contribs_fold fx n bs k M mul l 0%nat r0 Hmul Hbs Hl ltac:(lia) Eb) as [H _]. exact H. }
     rewrite Hsome. f_equal. unfold true_diag.
     assert (Hsum : forall r, (r < n)%nat ->
-       fold_left (fun a o => match o with Some f => a + f r | None => a end) (map (contrib_of n bs mul k) l) r0
+       fold_left (fun a o => match o with Some f => a + f r | None => a end) (map (contrib_of fx n bs mul k) l) r0
        = if ((0 <=? Z.of_nat r + k)%Z && (Z.of_nat r + k <? Z.of_nat n)%Z)%bool then M r (Z.to_nat (Z.of_nat r + k)) else r0).
-    { intros r Hr. destruct (contribs_fold n bs k M mul l r r0 Hmul Hbs Hl Hr Eb) as [_ ->]. unfold l.
+    { intros r Hr. destruct (contribs_fold fx n bs k M mul l r r0 Hmul Hbs Hl Hr Eb) as [_ ->]. unfold l.
       rewrite fold_blocks by lia. change (Z.of_nat 0) with 0%Z. ring. }
     destruct (k <=? 0)%Z eqn:Ek.
     + apply Z.leb_le in Ek. destruct (0 <=? k)%Z eqn:Ek0.
@@ -263,11 +358,11 @@ Qed.
 
 (* ---------- some block is bad  <->  ragged *)
 Lemma bad_iff_ragged B n k : (1 <= B)%nat -> (1 <= n)%nat ->
-  existsb (fun i => chunk_bad n (Nat.min B n) i k) (chunk_starts (S n) 0 (Nat.min B n) n) = ragged B n k.
+  existsb (fun i => chunk_bad false n (Nat.min B n) i k) (chunk_starts (S n) 0 (Nat.min B n) n) = ragged B n k.
 Proof. intros HB Hn. set (bs := Nat.min B n). assert (Hbs : (1 <= bs <= n)%nat) by (unfold bs; lia).
   apply eq_true_iff_eq. rewrite existsb_exists. split.
   - intros (i & Hin & Hbad). apply chunk_starts_in in Hin as (t & Hi & Hlt); [|lia|lia]. cbn [plus] in Hi.
-    unfold chunk_bad in Hbad. destruct (k =? 0)%Z eqn:E0; [discriminate|]. apply Z.eqb_neq in E0.
+    unfold chunk_bad in Hbad. cbv iota in Hbad. destruct (k =? 0)%Z eqn:E0; [discriminate|]. apply Z.eqb_neq in E0.
     unfold ragged. destruct (k <? 0)%Z eqn:Ek.
     + apply Z.ltb_lt in Ek. set (k' := Z.to_nat (- k)) in *. assert (1 <= k')%nat by (unfold k'; lia).
       apply andb_prop in Hbad as [H1 H2]. apply negb_true_iff in H1, H2. apply Nat.eqb_neq in H1, H2.
@@ -295,7 +390,7 @@ Proof. intros HB Hn. set (bs := Nat.min B n). assert (Hbs : (1 <= bs <= n)%nat) 
     set (rho := (n mod B)%nat) in *. set (q := (n / B)%nat) in *.
     exists (q * B)%nat. split.
     + apply chunk_starts_in; [lia|lia|]. exists q. rewrite Ebs. lia.
-    + rewrite Ebs. unfold chunk_bad. apply orb_prop in Hc as [Hc|Hc]; apply andb_prop in Hc as [Hk Hc2].
+    + rewrite Ebs. unfold chunk_bad. cbv iota. apply orb_prop in Hc as [Hc|Hc]; apply andb_prop in Hc as [Hk Hc2].
       * apply Z.ltb_lt in Hk. apply Nat.leb_le in Hc2. replace (k =? 0)%Z with false by (symmetry; apply Z.eqb_neq; lia).
         replace (k <? 0)%Z with true by (symmetry; apply Z.ltb_lt; lia).
         replace (Nat.min (q * B + B + Z.to_nat (- k)) n - q * B)%nat with rho by lia.
@@ -311,9 +406,14 @@ Proof. intros HB Hn. set (bs := Nat.min B n). assert (Hbs : (1 <= bs <= n)%nat) 
         replace (Nat.eqb (rho + Z.to_nat k) 1) with false by (symmetry; apply Nat.eqb_neq; lia). reflexivity.
 Qed.
 
-Theorem exact_diag_cases B n k (M : fm) mul : col_oracle n M mul -> (1 <= B)%nat -> (1 <= n)%nat ->
-  exact_diag B n mul k = if ragged B n k then None else Some (true_diag n n M k).
-Proof. intros Hmul HB Hn. rewrite (exact_diag_spec B n k M mul Hmul HB Hn), bad_iff_ragged by assumption. reflexivity. Qed.
+Lemma never_bad_fixed n bs k l : existsb (fun i => chunk_bad true n bs i k) l = false.
+Proof. induction l; [reflexivity|]. cbn [existsb chunk_bad orb]. exact IHl. Qed.
+(* fx = false: the pinned code; fx = true: the repaired code, which never raises *)
+Theorem exact_diag_cases fx B n k (M : fm) mul : col_oracle n M mul -> (1 <= B)%nat -> (1 <= n)%nat ->
+  exact_diag fx B n mul k = if (negb fx && ragged B n k)%bool then None else Some (true_diag n n M k).
+Proof. intros Hmul HB Hn. rewrite (exact_diag_spec fx B n k M mul Hmul HB Hn). destruct fx.
+  - rewrite never_bad_fixed. reflexivity.
+  - rewrite bad_iff_ragged by assumption. reflexivity. Qed.
 Lemma true_diag_length n (M : fm) k : length (true_diag n n M k) = (n - Z.to_nat (Z.abs k))%nat.
 Proof. unfold true_diag. destruct (0 <=? k)%Z eqn:E; rewrite map_length, seq_length; [apply Z.leb_le in E|apply Z.leb_gt in E]; lia. Qed.
 End P.
@@ -333,19 +433,23 @@ Proof. intros Hwf Hs a0 X HX Hle HI.
 
 (* exact_diag_correct: for ALL sizes n, block sizes B and offsets k: when the code returns, it returns the k-th diagonal of
    the represented matrix (length n - |k|, entries den e i (i+k) resp. den e (i-k) i) *)
-Theorem exact_diag_correct (e : op) B n k d : wf e = true -> shape e = (n, n) -> (1 <= B)%nat -> (1 <= n)%nat ->
-  exact_diag B n (fun _ X => matmat e X) k = Some d ->
+Theorem exact_diag_correct fx (e : op) B n k d : wf e = true -> shape e = (n, n) -> (1 <= B)%nat -> (1 <= n)%nat ->
+  exact_diag fx B n (fun _ X => matmat e X) k = Some d ->
   d = true_diag n n (den e) k /\ length d = (n - Z.to_nat (Z.abs k))%nat.
-Proof. intros Hwf Hs HB Hn H. rewrite (exact_diag_cases B n k (den e) _ (col_oracle_matmat e n Hwf Hs) HB Hn) in H.
-  destruct (ragged B n k); [discriminate|]. injection H as <-. split; [reflexivity|apply true_diag_length]. Qed.
+Proof. intros Hwf Hs HB Hn H. rewrite (exact_diag_cases fx B n k (den e) _ (col_oracle_matmat e n Hwf Hs) HB Hn) in H.
+  destruct (negb fx && ragged B n k)%bool; [discriminate|]. injection H as <-. split; [reflexivity|apply true_diag_length]. Qed.
 (* ... and it raises exactly on the ragged inputs *)
 Theorem exact_diag_none_iff (e : op) B n k : wf e = true -> shape e = (n, n) -> (1 <= B)%nat -> (1 <= n)%nat ->
-  (exact_diag B n (fun _ X => matmat e X) k = None <-> ragged B n k = true).
-Proof. intros Hwf Hs HB Hn. rewrite (exact_diag_cases B n k (den e) _ (col_oracle_matmat e n Hwf Hs) HB Hn).
-  destruct (ragged B n k); split; intros H; try reflexivity; discriminate. Qed.
+  (exact_diag false B n (fun _ X => matmat e X) k = None <-> ragged B n k = true).
+Proof. intros Hwf Hs HB Hn. rewrite (exact_diag_cases false B n k (den e) _ (col_oracle_matmat e n Hwf Hs) HB Hn).
+  cbn [negb andb]. destruct (ragged B n k); split; intros H; try reflexivity; discriminate. Qed.
 Theorem exact_diag_total (e : op) B n k : wf e = true -> shape e = (n, n) -> (1 <= B)%nat -> (1 <= n)%nat ->
-  ragged B n k = false -> exact_diag B n (fun _ X => matmat e X) k = Some (true_diag n n (den e) k).
-Proof. intros Hwf Hs HB Hn Hr. rewrite (exact_diag_cases B n k (den e) _ (col_oracle_matmat e n Hwf Hs) HB Hn), Hr. reflexivity. Qed.
+  ragged B n k = false -> exact_diag false B n (fun _ X => matmat e X) k = Some (true_diag n n (den e) k).
+Proof. intros Hwf Hs HB Hn Hr. rewrite (exact_diag_cases false B n k (den e) _ (col_oracle_matmat e n Hwf Hs) HB Hn), Hr. reflexivity. Qed.
+(* the repaired code returns the true diagonal for every size, block size and offset *)
+Theorem exact_diag_fixed_total (e : op) B n k : wf e = true -> shape e = (n, n) -> (1 <= B)%nat -> (1 <= n)%nat ->
+  exact_diag true B n (fun _ X => matmat e X) k = Some (true_diag n n (den e) k).
+Proof. intros Hwf Hs HB Hn. rewrite (exact_diag_cases true B n k (den e) _ (col_oracle_matmat e n Hwf Hs) HB Hn). reflexivity. Qed.
 (* no error at all when the size is a multiple of the block size or at most one block, or on the main diagonal *)
 Lemma ragged_false_cases B n k : (n <= B)%nat \/ (n mod B = 0)%nat \/ k = 0%Z -> ragged B n k = false.
 Proof. unfold ragged. intros [H|[H|H]].
